@@ -1249,6 +1249,37 @@ def fixed_histories():
         out.append({'property': PROP, 'run_seed': 'fixed-ctor-%s' % src,
                     'config': {'clients': 2, 'libs': [src, uq],
                                'fault_kinds': []}, 'ops': ops})
+    # an estimate made from a plain copy of the descriptors right after its
+    # own decomposition, kept while the library decomposes other molecules,
+    # evaluated before and after (the plain copy is legitimate here: the
+    # library's last molecule *is* the estimate's own when it is made)
+    for lib, mol, others in (('BensonGA', 'CCCCCC', ['C=C', 'CO']),
+                             ('FixA', 'CCO', ['C', 'CC(C)C']),
+                             ('GRWSurface2018', '[Pt]CC', ['C([Pt])C[Pt]'])):
+        vs = [{'m': 'get_SoR', 'T': 298.15, 'S_el': True},
+              {'m': 'get_GoRT', 'T': 500.0, 'S_el': True},
+              {'m': 'get_S', 'T': 500.0, 'unit': 'J/mol/K', 'S_el': True},
+              {'m': 'get_HoRT', 'T': 500.0}]
+        ops = [{'op': 'load', 'client': 0, 'slot': 0, 'lib': lib,
+                'how': 'name'},
+               {'op': 'decompose', 'client': 0, 'slot': 0, 'mol': mol,
+                'out': 'd0'},
+               {'op': 'estimate', 'client': 0, 'slot': 0, 'from': 'd0',
+                'out': 'e0', 'plain': True},
+               {'op': 'estimate', 'client': 0, 'slot': 0, 'from': 'd0',
+                'out': 'e1'}]
+        for est in ('e0', 'e1'):
+            ops += [{'op': 'evaluate', 'client': 0, 'est': est, 'v': dict(v)}
+                    for v in vs]
+        for i, other in enumerate(others):
+            ops.append({'op': 'decompose', 'client': 1, 'slot': 0,
+                        'mol': other, 'out': 'x%d' % i})
+            for est in ('e0', 'e1'):
+                ops += [{'op': 'evaluate', 'client': 0, 'est': est,
+                         'v': dict(v)} for v in vs]
+        out.append({'property': PROP, 'run_seed': 'fixed-kept-%s' % lib,
+                    'config': {'clients': 2, 'libs': [lib],
+                               'fault_kinds': []}, 'ops': ops})
     # polling for a file that is not there yet: many failing loads in one
     # process, then the load, and everything after it, as in a fresh process
     for lib, fname, n, mol in (('FixA', 'extra.yaml', 40, 'CCO'),
